@@ -1508,3 +1508,55 @@ int vnacal_new_add_mapped_matrix_m(vnacal_new_t *vnp,
 
     return _vnacal_new_add_common(vnaa);
 }
+
+#ifdef LIBVNA_VERIF
+/*
+ * _vnacal_new_verif_connectivity_dump: verification hook (compiled only
+ *	with -DLIBVNA_VERIF): for each standard added to a vnacal_new_t,
+ *	write the dimensions of its S matrix, whether it has a connectivity
+ *	matrix, which S cells are not known to be zero and the connectivity
+ *	matrix
+ *   @vnp: pointer to vnacal_new_t structure
+ *   @buffer: address of vector to receive the values
+ *   @size: number of ints buffer can hold
+ *
+ * Return:
+ *   number of ints the dump needs (the buffer is filled up to size)
+ */
+int _vnacal_new_verif_connectivity_dump(const vnacal_new_t *vnp,
+	int *buffer, int size)
+{
+    const vnacal_layout_t *vlp = &vnp->vn_layout;
+    const int s_rows = VL_S_ROWS(vlp);
+    const int s_columns = VL_S_COLUMNS(vlp);
+    const int s_ports = MAX(s_rows, s_columns);
+    const vnacal_new_measurement_t *vnmp;
+    int count = 0;
+
+    for (vnmp = vnp->vn_measurement_list; vnmp != NULL;
+	    vnmp = vnmp->vnm_next) {
+	const int values[3] = {
+	    s_rows, s_columns, vnmp->vnm_connectivity_matrix != NULL
+	};
+
+	for (int i = 0; i < 3; ++i, ++count) {
+	    if (count < size) {
+		buffer[count] = values[i];
+	    }
+	}
+	for (int cell = 0; cell < s_rows * s_columns; ++cell, ++count) {
+	    if (count < size) {
+		buffer[count] = vnmp->vnm_s_matrix[cell] != vnp->vn_zero;
+	    }
+	}
+	if (vnmp->vnm_connectivity_matrix != NULL) {
+	    for (int cell = 0; cell < s_ports * s_ports; ++cell, ++count) {
+		if (count < size) {
+		    buffer[count] = vnmp->vnm_connectivity_matrix[cell];
+		}
+	    }
+	}
+    }
+    return count;
+}
+#endif /* LIBVNA_VERIF */
